@@ -164,6 +164,109 @@ func signUnit(ki int) harness.Unit {
 }
 
 // derUnit: PrivateKey.Sign / PublicKey.Verify (DER form) and the catalogue of non-DER encodings.
+// coincidenceUnit: (e, r, s) triples CONSTRUCTED so that the point addition inside verification,
+// [s]G + [t]P with t = r + s, meets its special cases. (1) [s]G = [t]P: the sum is a doubling; the
+// triple is a valid signature (the reference accepts it) and must be accepted. (2) [s]G = -[t]P:
+// the sum is the point at infinity, which has no x coordinate; the triple must be rejected even
+// when e = r (an implementation that represents infinity as (0,0) would compute R = e + 0 = r).
+// Digest-level API (sm2.Verify), where e can be chosen.
+func coincidenceUnit() harness.Unit {
+	return harness.Unit{Name: "constructed-coincidences", Run: func(c *harness.Ctx) {
+		n := refsm2.N
+		inv := func(x *big.Int) *big.Int { return new(big.Int).ModInverse(new(big.Int).Mod(x, n), n) }
+		for _, key := range sm2k.Alphabet() {
+			d := key.D
+			one := big.NewInt(1)
+			if new(big.Int).Mod(new(big.Int).Add(d, one), n).Sign() == 0 || d.Cmp(one) == 0 {
+				continue
+			}
+			pub := key.LibPub()
+			for _, kk := range []int64{2, 7, 12345, 99991} {
+				k := big.NewInt(kk)
+				x1 := refsm2.BaseMul(k).X
+				// (1) doubling: r = k (1 - d) / (2 d), s = (1+d)^-1 (k - r d), e = r - x1
+				r := new(big.Int).Mul(k, new(big.Int).Sub(one, d))
+				r.Mul(r, inv(new(big.Int).Mul(big.NewInt(2), d)))
+				r.Mod(r, n)
+				sv := new(big.Int).Sub(k, new(big.Int).Mul(r, d))
+				sv.Mul(sv, inv(new(big.Int).Add(one, d)))
+				sv.Mod(sv, n)
+				e := new(big.Int).Sub(r, x1)
+				e.Mod(e, n)
+				if r.Sign() > 0 && sv.Sign() > 0 {
+					tag := fmt.Sprintf("key %s k=%d: valid signature whose verification adds [s]G to an equal point", key.Name, kk)
+					c.Add("evaluations", 1)
+					c.DistinctS("nontrivial", tag)
+					want := refsm2.Verify(key.Pub, e, r, sv)
+					sg, tp := refsm2.BaseMul(sv), refsm2.Mul(new(big.Int).Mod(new(big.Int).Add(r, sv), n), key.Pub)
+					if !want || !sg.Equal(tp) {
+						c.Note("construction failed for %s (reference verify=%v, points equal=%v)", tag, want, sg.Equal(tp))
+						c.Add("harness_divergences", 1)
+						continue
+					}
+					var got bool
+					if !c.Guard("verify-hash-panic:coincidence", tag, nil, func() { got = sm2.Verify(pub, pad32(e), r, sv) }) && !got {
+						c.Violate("verify-hash-rejects-valid:doubling-inside-verification", fmt.Sprintf("[%s] sm2.Verify rejects (e=%x r=%x s=%x)", tag, e, r, sv), nil, nil)
+					}
+				}
+				// (2) infinity: s = -t d with t = k (any), r = t - s, e = r
+				t := new(big.Int).Set(k)
+				s2 := new(big.Int).Neg(new(big.Int).Mul(t, d))
+				s2.Mod(s2, n)
+				r2 := new(big.Int).Sub(t, s2)
+				r2.Mod(r2, n)
+				if r2.Sign() > 0 && s2.Sign() > 0 {
+					tag := fmt.Sprintf("key %s t=%d: [s]G + [t]P is the point at infinity and e = r", key.Name, kk)
+					c.Add("evaluations", 1)
+					c.DistinctS("nontrivial", tag)
+					if !refsm2.Add(refsm2.BaseMul(s2), refsm2.Mul(t, key.Pub)).Inf {
+						c.Note("construction failed for %s", tag)
+						c.Add("harness_divergences", 1)
+						continue
+					}
+					// message-level API: the key owner can choose r = e(M) and s = -r d / (1 + d), which
+					// makes the sum the point at infinity for that very message
+					if kk == 2 {
+						for mi, m := range [][]byte{[]byte("message digest"), {}, pu.Msg(3, 100)} {
+							em := refsm2.E(key.Pub, gmref16, m)
+							rm := new(big.Int).Mod(em, n)
+							sm := new(big.Int).Neg(new(big.Int).Mul(rm, d))
+							sm.Mul(sm, inv(new(big.Int).Add(one, d)))
+							sm.Mod(sm, n)
+							if rm.Sign() == 0 || sm.Sign() == 0 || refsm2.Verify(key.Pub, em, rm, sm) {
+								continue
+							}
+							c.Add("evaluations", 1)
+							c.DistinctS("nontrivial", fmt.Sprintf("inf-msg/%s/%d", key.Name, mi))
+							var got bool
+							mt := fmt.Sprintf("key %s message %d: r = e(M), s = -r d/(1+d): [s]G + [t]P is the point at infinity", key.Name, mi)
+							if !c.Guard("verify-panic:coincidence", mt, nil, func() { got = sm2.Sm2Verify(pub, m, gmref16, rm, sm) }) && got {
+								c.Violate("verify-accepts:point-at-infinity", fmt.Sprintf("[%s] Sm2Verify accepts (r=%x s=%x); the standard's verification has no x coordinate to compare", mt, rm, sm), nil, nil)
+							}
+						}
+					}
+					for _, ee := range []*big.Int{r2, new(big.Int).Sub(r2, one), big.NewInt(0)} {
+						var got bool
+						if !c.Guard("verify-hash-panic:coincidence", tag, nil, func() { got = sm2.Verify(pub, pad32(ee), r2, s2) }) && got {
+							c.Violate("verify-hash-accepts:point-at-infinity", fmt.Sprintf("[%s] sm2.Verify accepts (e=%x r=%x s=%x) although [s]G + [t]P has no x coordinate", tag, ee, r2, s2), nil, nil)
+						}
+					}
+				}
+			}
+		}
+	}}
+}
+
+var gmref16 = []byte("1234567812345678")
+
+func pad32(x *big.Int) []byte {
+	b := x.Bytes()
+	if len(b) >= 32 {
+		return b
+	}
+	return append(make([]byte, 32-len(b)), b...)
+}
+
 func derUnit(ki int) harness.Unit {
 	return harness.Unit{Name: fmt.Sprintf("der/key%d", ki), Run: func(c *harness.Ctx) {
 		key := sm2k.Alphabet()[ki]
@@ -391,6 +494,7 @@ var Prop = &harness.Prop{
 				u = append(u, derUnit(i), rejectUnit(i))
 			}
 		}
+		u = append(u, coincidenceUnit())
 		return u
 	},
 }
